@@ -35,6 +35,7 @@ template <typename T1, typename T2>
 CompareResult arithmeticCompare(
     const T1& lhs, const T2& rhs,
     enable_if_t<is_integral<T1>::value && is_integral<T2>::value &&
+                is_signed<T1>::value == is_signed<T2>::value &&
                 sizeof(T1) < sizeof(T2)>* = 0) {
   return arithmeticCompare<T2>(static_cast<T2>(lhs), rhs);
 }
@@ -43,6 +44,7 @@ template <typename T1, typename T2>
 CompareResult arithmeticCompare(
     const T1& lhs, const T2& rhs,
     enable_if_t<is_integral<T1>::value && is_integral<T2>::value &&
+                is_signed<T1>::value == is_signed<T2>::value &&
                 sizeof(T2) < sizeof(T1)>* = 0) {
   return arithmeticCompare<T1>(lhs, static_cast<T1>(rhs));
 }
@@ -60,22 +62,20 @@ template <typename T1, typename T2>
 CompareResult arithmeticCompare(
     const T1& lhs, const T2& rhs,
     enable_if_t<is_integral<T1>::value && is_integral<T2>::value &&
-                is_unsigned<T1>::value && is_signed<T2>::value &&
-                sizeof(T2) == sizeof(T1)>* = 0) {
+                is_unsigned<T1>::value && is_signed<T2>::value>* = 0) {
   if (rhs < 0)
     return COMPARE_RESULT_GREATER;
-  return arithmeticCompare<T1>(lhs, static_cast<T1>(rhs));
+  return arithmeticCompare(lhs, static_cast<make_unsigned_t<T2>>(rhs));
 }
 
 template <typename T1, typename T2>
 CompareResult arithmeticCompare(
     const T1& lhs, const T2& rhs,
     enable_if_t<is_integral<T1>::value && is_integral<T2>::value &&
-                is_signed<T1>::value && is_unsigned<T2>::value &&
-                sizeof(T2) == sizeof(T1)>* = 0) {
+                is_signed<T1>::value && is_unsigned<T2>::value>* = 0) {
   if (lhs < 0)
     return COMPARE_RESULT_LESS;
-  return arithmeticCompare<T2>(static_cast<T2>(lhs), rhs);
+  return arithmeticCompare(static_cast<make_unsigned_t<T1>>(lhs), rhs);
 }
 
 template <typename T1, typename T2>
